@@ -162,7 +162,14 @@ func TestGenC15(t *testing.T) {
 	var kitClean func()
 	defer func() {
 		if kitC != nil {
+			c := kitC
 			kitClean()
+			// a Write that fails reports that nothing was accepted (the record layer above trusts the count:
+			// bytes reported as written are never sent again)
+			n, err := c.Write([]byte("after close"))
+			q.check(err != nil && n == 0, "c15:failed-write-reports-bytes:kit", func() string {
+				return fmt.Sprintf("Write on a closed mailbox connection returned n=%d err=%v", n, err)
+			})
 		}
 	}()
 	for i := 0; i < n; i++ {
@@ -482,6 +489,20 @@ func (g *gatedConn) Read(p []byte) (int, error) {
 	return g.memConn.Read(p)
 }
 
+// deadlineConn records the deadlines it is given.
+type deadlineConn struct {
+	memConn
+	read, write               time.Time
+	readAfterRW, writeAfterRW time.Time
+}
+
+func (d *deadlineConn) SetReadDeadline(t time.Time) error { d.read, d.readAfterRW = t, t; return nil }
+func (d *deadlineConn) SetWriteDeadline(t time.Time) error {
+	d.write, d.writeAfterRW = t, t
+	return nil
+}
+func (d *deadlineConn) SetDeadline(t time.Time) error { d.read, d.write = t, t; return nil }
+
 type readConn struct {
 	memConn
 	r io.Reader
@@ -663,6 +684,25 @@ func TestGenC16(t *testing.T) {
 				ci, map[bool]string{false: "XX", true: "KK"}[kk], len(msg), ce, se, rerr, len(got))
 		})
 		q.stat("act_and_record_together_cases", 1)
+	}
+
+	// (1c) deadlines of the TCP variant reach the transport for the right direction
+	{
+		pp := newMachinePair(r.sub(515151), pairCfg{minI: 0, maxI: 2, minR: 0, maxR: 2})
+		if pp.errI == nil && pp.errR == nil {
+			rec := &deadlineConn{}
+			nc := mailbox.VerifNewNoiseConn(rec, pp.init)
+			tr, tw, tb := time.Unix(1000, 0), time.Unix(2000, 0), time.Unix(3000, 0)
+			_ = nc.SetReadDeadline(tr)
+			_ = nc.SetWriteDeadline(tw)
+			okRW := rec.read.Equal(tr) && rec.write.Equal(tw)
+			_ = nc.SetDeadline(tb)
+			okB := rec.read.Equal(tb) && rec.write.Equal(tb)
+			q.check(okRW && okB, "c16:deadline-forwarded-to-the-wrong-direction", func() string {
+				return fmt.Sprintf("NoiseConn: after SetReadDeadline(%d) and SetWriteDeadline(%d) the transport has read=%d write=%d; after SetDeadline(%d): read=%d write=%d",
+					tr.Unix(), tw.Unix(), rec.readAfterRW.Unix(), rec.writeAfterRW.Unix(), tb.Unix(), rec.read.Unix(), rec.write.Unix())
+			})
+		}
 	}
 
 	// (2) Flush against a writer that accepts part of the record and times out
